@@ -407,6 +407,32 @@ func descendingIterSite(w *World, own *Fn, n ast.Node, depth int) bool {
 	if !ok {
 		return false
 	}
+	// reversedIndex: the table the iterator is created on is indexed `C - i` with i the variable of
+	// the (counting-up) loop: the tables are taken from the last to the first all the same
+	reversedIndex := func(x ast.Node, loopVar types.Object) bool {
+		c, ok := x.(*ast.CallExpr)
+		if !ok || loopVar == nil {
+			return false
+		}
+		rc := recvOf(c)
+		if rc == nil {
+			return false
+		}
+		ix, ok := unparen(rc).(*ast.IndexExpr)
+		if !ok {
+			return false
+		}
+		fnAt := w.fnOf(x)
+		if fnAt == nil {
+			fnAt = own
+		}
+		be, ok := unparen(w.Origin(fnAt, ix.Index)).(*ast.BinaryExpr)
+		if !ok || be.Op != token.SUB {
+			return false
+		}
+		id, ok := unparen(be.Y).(*ast.Ident)
+		return ok && w.Use(id) == loopVar
+	}
 	inDownLoop := func(x ast.Node) bool {
 		for p := w.parentOf(x); p != nil; p = w.parentOf(p) {
 			switch fs := p.(type) {
@@ -414,8 +440,16 @@ func descendingIterSite(w *World, own *Fn, n ast.Node, depth int) bool {
 				if inc, ok := fs.Post.(*ast.IncDecStmt); ok && inc.Tok == token.DEC {
 					return true
 				}
+				if inc, ok := fs.Post.(*ast.IncDecStmt); ok && inc.Tok == token.INC {
+					if id, isId := unparen(inc.X).(*ast.Ident); isId {
+						return reversedIndex(x, w.Use(id))
+					}
+				}
 				return false
 			case *ast.RangeStmt:
+				if kid, isId := fs.Key.(*ast.Ident); isId {
+					return reversedIndex(x, w.Info.Defs[kid])
+				}
 				return false
 			case *ast.FuncLit, *ast.FuncDecl:
 				return false
